@@ -89,9 +89,9 @@ def gen_case(rng, e2e=False):
             if style < 0.15:
                 how = 'same'
             elif style < 0.45:
-                how = rng.choice(['same', G.drop_int_how(kind)])
+                how = rng.choice(['same', G.drop_int_how(kind, rng)])
             else:
-                how = rng.choice([None, 'same', G.drop_int_how(kind)])
+                how = rng.choice([None, 'same', G.drop_int_how(kind, rng)])
             s = mk(how)
             if rng.random() < 0.04:
                 s = dict(EMPTY)
@@ -305,7 +305,16 @@ def run_e2e(cases, pf, template, charset, workdir):
     try:
         checker.check()
     except Exception as exc:
-        return ['err ' + type(exc).__name__] * len(cases), calls
+        if len(cases) == 1:
+            return ['err ' + type(exc).__name__], {}
+        # find the message(s) that make the check raise: each one alone in a file of its own
+        outs, per = [], {}
+        for j, case in enumerate(cases):
+            o, p1 = run_e2e([dict(case, msgid=dict(case['msgid'], text='m0 ' + case['msgid']['text'][len(case['marker']):]), marker='m0 ')],
+                            pf, template, charset, workdir)
+            outs.append(o[0])
+            per[j] = p1.get(0, []) if isinstance(p1, dict) else []
+        return outs, per
     per = collections.defaultdict(list)
     stray = []
     for name, extra in calls:
